@@ -202,6 +202,14 @@ def case(task):
                         k.startswith('s_Ricci'):
                     sc = max(rmax, scurv if 'R' in k or 'split' in k
                              else 1e-2)
+                    # covariant constancy: on the scale of the tensor that
+                    # is differentiated (gamma^ij ~ 1/a^2 on scaled data)
+                    if k == 'ident:Dgamma':
+                        sc = max(sc, 1e-2 * float(np.abs(
+                            rel['gammadown3']).max()))
+                    elif k == 'ident:Dgammaup':
+                        sc = max(sc, 1e-2 * float(np.abs(
+                            rel['gammaup3']).max()))
                 else:
                     sc = max(rmax, 1e-2)
                 res['err'].setdefault(k, []).append(gc.err(v, ref[k], sc))
@@ -258,6 +266,9 @@ def build_tasks(tier, seed):
         tasks.append((('lattice', 'L1', 'S3', 'G2', 'D1', 0.0), p, (16, 32),
                       seed))
     tasks.append((('mink',), 8, (16, 32), seed))
+    # badly scaled spatial metric (gamma -> a^2 gamma)
+    tasks.append((('scaled', 0.02, 'L1', 'S3', 'G2', 'D1', 0.0), 8, (16, 32),
+                  seed))
     # exact skeleton: polynomial data, stencils exact, one resolution
     for p in (2, 4, 8):
         tasks.append((('poly',), p, (13, 14), seed))
